@@ -241,3 +241,54 @@ def m4(ctx):
     if n < 4:
         raise AnalysisError("GitStore: only %d delegating accessor pairs found" % n)
     return obs
+
+
+@rule("C15", "M5", floor=2, kind="S",
+      desc="stay separate: the parser object handed to FileBasedCollectionMetadata is constructed afresh in that very "
+           "access (never obtained from a function that may hand out a shared or cached object)")
+def m5(ctx):
+    from ..dataflow import DefUse
+    obs = []
+    for fi in ctx.P.all_funcs():
+        if not fi.module.name.startswith("xandikos.store") or (fi.cls is not None and fi.cls.qualname == FILE_MD):
+            continue
+        cfg = None
+        for n0 in walk_local(fi.node):
+            if isinstance(n0, ast.Call) and (dotted(n0.func) or "").split(".")[-1] == "FileBasedCollectionMetadata" and n0.args:
+                cfg = cfg or ctx.cfg(fi)
+                du = DefUse(cfg)
+                node = [n for n in cfg.stmt_nodes() if n0 in n.calls()]
+                if not node or not isinstance(n0.args[0], ast.Name):
+                    continue
+                defs = du.reaching(node[0], n0.args[0].id)
+                bad = [src(d.value) for d in defs if not (isinstance(d.value, ast.Call) and (dotted(d.value.func) or "").split(".")[-1] in ("ConfigParser", "RawConfigParser"))]
+                obs.append(ctx.ob(not bad and bool(defs), fi.qualname, "%s:%d" % (fi.module.rel, n0.lineno), "metadata parser is constructed in place",
+                                  "cp = configparser.ConfigParser(...) in the same function",
+                                  "the parser given to FileBasedCollectionMetadata comes from `%s`: setters mutate it in place, so if that call can return the "
+                                  "same object twice (cache, module-level object) a property set on one collection shows up on another / an old value reappears"
+                                  % (bad[0] if bad else "?")))
+    return obs
+
+
+@rule("C15", "M6", floor=1, kind="S",
+      desc="success is reported only if the setter ran: in apply_modify_prop a '200 OK' status is assigned only after "
+           "set_value completed normally")
+def m6(ctx):
+    fi = ctx.func("xandikos.webdav.apply_modify_prop")
+    cfg = ctx.cfg(fi)
+    sets = [n for n in cfg.stmt_nodes() for c in n.calls() if isinstance(c.func, ast.Attribute) and c.func.attr == "set_value"]
+    if not sets:
+        raise AnalysisError("apply_modify_prop no longer calls set_value")
+    oks = [n for n in cfg.stmt_nodes() if n.kind == "stmt" and isinstance(n.ast, ast.Assign) and isinstance(ctx.P.try_fold(fi.module, n.ast.value), str)
+           and ctx.P.try_fold(fi.module, n.ast.value).startswith("200")]
+    lits = [n for n in cfg.stmt_nodes() for c in n.calls() if (dotted(c.func) or "").split(".")[-1] == "PropStatus" and c.args
+            and isinstance(ctx.P.try_fold(fi.module, c.args[0]), str) and ctx.P.try_fold(fi.module, c.args[0]).startswith("200")]
+    if not oks and not lits:
+        raise AnalysisError("apply_modify_prop: no '200 OK' status found")
+    obs = []
+    for n in oks + lits:
+        ok = cfg.normal_completion_dominates(sets, n)
+        obs.append(ctx.ob(ok, fi.qualname, where(fi, n), "'200 OK' only after set_value completed", "status assigned on the success path of set_value",
+                          "`%s` can be reached without handler.set_value() having completed: a property that is not supported on the resource (or was "
+                          "skipped) is reported as successfully set although nothing was stored" % n.text()[:50]))
+    return obs
